@@ -2351,6 +2351,8 @@ def parse_item(line_tokens):
             raise AssemblerError('alignment must be an integer', line)
         if alignment < 1:
             raise AssemblerError('alignment must be at least 1', line)
+        if alignment > 2**32:
+            raise AssemblerError('alignment must fit the 32-bit address space', line)
         return Align(line, alignment)
     # r-type instructions
     elif head in R_TYPE_INSTRUCTIONS:
